@@ -1,2 +1,3 @@
+import FrappyDrive.C16
 import FrappyDrive.C20
 import FrappyDrive.Util
